@@ -19,7 +19,7 @@ def gen_behaviour(r, kind, hang=2.0):
     if kind == "pass":
         return {"sleep": dur, "exit": 0}, "pass"
     if kind == "fail":
-        code = r.choice([1, 2, 101, 255])
+        code = r.choice([1, 2, 101, 255, 70, 69, 126, 127])   # 70 is also the launcher's own exec-failure code
         return {"sleep": dur, "exit": code}, "fail"
     if kind == "signal":
         sg = r.choice([signal.SIGSEGV, signal.SIGABRT, signal.SIGKILL, signal.SIGTERM, signal.SIGUSR2])
@@ -74,7 +74,7 @@ def gen_scenario(r, n_tests=None, allow_signal=True, allow_hang=True):
     if r.random() < 0.3 and n >= 3:
         # one test group with a max-threads limit, and threads-required on some tests
         sc["groups"] = dict(name="g1", max_threads=r.choice([1, 2]), members=r.choice(["_a", "_b", "_c"]),
-                            heavy=r.choice([None, "_a", "_c"]), heavy_weight=2)
+                            heavy=r.choice([None, "_a", "_c"]), heavy_weight=r.choice([2, 2, "num-test-threads"]))
     if r.random() < 0.3:
         sc["priorities"] = dict(high=r.choice(["_a", "_b", "_c"]), value=r.choice([10, 50]), low=r.choice(["_a", "_b", "_c"]))
     if allow_signal and r.random() < 0.15:
@@ -113,7 +113,7 @@ def nextest_config(sc, profile):
             lines.append(f'retries = {sc["retries"]}')
     else:
         lines.append("retries = 0")
-    lines.append('slow-timeout = { period = "300ms", terminate-after = 2, grace-period = "100ms" }')
+    lines.append('slow-timeout = { period = "300ms", terminate-after = 2, grace-period = "%dms" }' % sc.get("grace_ms", 100))
     lines.append('leak-timeout = "150ms"')
     if via.get("threads", "config") == "config":
         lines.append(f'test-threads = {sc["threads"]}')
@@ -134,7 +134,7 @@ def nextest_config(sc, profile):
         lines.insert(0, f'[test-groups]\n{g["name"]} = {{ max-threads = {g["max_threads"]} }}\n')
         lines.append(f'[[profile.{profile}.overrides]]\nfilter = "test({g["members"]})"\ntest-group = "{g["name"]}"')
         if g.get("heavy"):
-            lines.append(f'[[profile.{profile}.overrides]]\nfilter = "test({g["heavy"]})"\nthreads-required = {g["heavy_weight"]}')
+            lines.append(f'[[profile.{profile}.overrides]]\nfilter = "test({g["heavy"]})"\nthreads-required = {json.dumps(g["heavy_weight"])}')
     if sc.get("retry_only"):
         lines.append(f'[[profile.{profile}.overrides]]\nfilter = "test({sc["retry_only"]})"\n'
                      f'retries = {{ backoff = "fixed", count = {sc["retries"]}, delay = "{sc["delay_ms"]}ms" }}')
@@ -215,7 +215,8 @@ def expected_attempts(sc, t):
 def weight(sc, t):
     g = sc.get("groups")
     if g and g.get("heavy") and g["heavy"] in t["name"]:
-        return g["heavy_weight"]
+        # "num-test-threads" = the thread count the run actually uses (command line / environment included)
+        return sc["threads"] if g["heavy_weight"] == "num-test-threads" else g["heavy_weight"]
     return 1
 
 
@@ -629,7 +630,13 @@ def oracle_C10(sc, res):
                     atts = behs.get(key) or [{}]
                     beh = atts[min(i["attempt"] - 1, len(atts) - 1)]
                     if "on_term" in beh:
-                        continue   # scripted to hang: ended by its own timeout, not by the cancellation
+                        # scripted to outlive its deadline (600 ms): ended by its own timeout, not by the
+                        # cancellation -- unless it ignores SIGTERM and would have finished by itself within
+                        # the grace period: then it must be left to do so
+                        natural = i["start"] + beh.get("sleep", 0)
+                        grace_end = i["start"] + 0.6 + sc.get("grace_ms", 100) / 1000.0
+                        if not (beh["on_term"] == "ignore" and natural < grace_end - 0.3):
+                            continue
                     how = i["how"] or "no end record (killed)"
                     if not (how.startswith("exit-") and how[5:].isdigit()) and not how.startswith("raise-"):
                         return (f"{key} attempt {i['attempt']} was running when the run was cancelled "
@@ -717,6 +724,38 @@ def directed(prop):
         out.append(dict(tests=tests, retries=1, delay_ms=1500, backoff="fixed", failfast="noff", threads=2, filter=None,
                         run_ignored="default", sigint_at=0.6, priorities=None, groups=None,
                         retry_only="t00_a"))
+    if prop in ("C10", "C09"):
+        # a non-signal cancellation that begins while a unit is in the grace period of its timeout
+        # termination: the unit is still left alone (it ignores SIGTERM and ends by itself inside the grace period)
+        tests = [dict(bin="alpha::t1", name="t00_a", ignored=False,
+                      attempts=[{"sleep": 1.6, "exit": 0, "on_term": "ignore"}], expect=["timeout"], mode="hang"),
+                 dict(bin="beta::t1", name="t01_b", ignored=False, attempts=[{"sleep": 0.95, "exit": 1}],
+                      expect=["fail"], mode="fail")]
+        out.append(dict(tests=tests, retries=0, delay_ms=0, backoff="fixed", failfast="ff", threads=2, filter=None,
+                        run_ignored="default", sigint_at=None, priorities=None, groups=None, grace_ms=3000))
+    if prop in ("C07", "C03"):
+        # attempts that time out are failed attempts too: retried like any other (hang once, then pass; hang always)
+        tests = [dict(bin="alpha::t1", name="t00_a", ignored=False,
+                      attempts=[{"sleep": 2.0, "exit": 0, "on_term": "die"}, {"sleep": 0.02, "exit": 0}],
+                      expect=["timeout", "pass"], mode="flaky"),
+                 dict(bin="beta::t1", name="t01_b", ignored=False,
+                      attempts=[{"sleep": 2.0, "exit": 0, "on_term": "die"}], expect=["timeout"], mode="hang"),
+                 dict(bin="beta::t2", name="t02_c", ignored=False, attempts=[{"sleep": 0.02, "exit": 70}, {"sleep": 0.02, "exit": 0}],
+                      expect=["fail", "pass"], mode="flaky")]
+        out.append(dict(tests=tests, retries=1, delay_ms=0, backoff="fixed", failfast="noff", threads=3, filter=None,
+                        run_ignored="default", sigint_at=None, priorities=None, groups=None))
+    if prop in ("C08", "C14"):
+        # threads-required = "num-test-threads" with the thread count raised on the command line / in the
+        # environment above the profile's: the exclusive test runs alone
+        for via in ("cli", "env"):
+            tests = [dict(bin=b, name=f"t{i:02d}_{'a' if i == 2 else 'b'}", ignored=False,
+                          attempts=[{"sleep": 0.25, "exit": 0}], expect=["pass"], mode="pass")
+                     for i, b in enumerate(["alpha::t1", "alpha::t1", "alpha::t2", "beta::t1", "beta::t1", "beta::t2"])]
+            out.append(dict(tests=tests, retries=0, delay_ms=0, backoff="fixed", failfast="noff", threads=4, filter=None,
+                            run_ignored="default", sigint_at=None,
+                            priorities=dict(high="t00", value=10, low="t05"),
+                            groups=dict(name="g1", max_threads=4, members="_zz", heavy="_a", heavy_weight="num-test-threads"),
+                            via=dict(threads=via, failfast="config", retries="config")))
     if prop in ("C02", "C17"):
         # a signal-cancelled run still reports every unselected test as skipped (the queue is walked to its
         # end): unselected tests lie behind the test that is running when SIGINT arrives
